@@ -11,10 +11,71 @@ from prop import SchedProp  # noqa: E402
 class C43(SchedProp):
     id = 'C43'
     props_modules = ['CylcModel.Props.C43']
-    theorems = []
-    kinds = ('cmd',)
+    theorems = [
+        'CylcModel.C43.stop_point_submit_counterexample',
+        'CylcModel.C43.stop_point_submit_retry_counterexample',
+        'CylcModel.C43.stop_point_submit_partial',
+        'CylcModel.C43.stop_point_submit_configured',
+        'CylcModel.C43.stop_point_submit_loop',
+        'CylcModel.C43.stop_point_shutdown',
+        'CylcModel.C43.auto_shutdown_sound',
+        'CylcModel.C43.db_stop_point_inv',
+        'CylcModel.C43.stop_point_recorded',
+        'CylcModel.C43.stop_point_persisted',
+        'CylcModel.C43.restart_stop_point',
+        'CylcModel.C43.stop_point_survives_restart',
+        'CylcModel.C43.stop_point_forgotten',
+        'CylcModel.C43.stop_task_stops',
+        'CylcModel.C43.stop_task_partial',
+        'CylcModel.C43.stop_task_counterexample',
+        'CylcModel.C43.stop_task_run_counterexample',
+        'CylcModel.C43.stop_task_flag_only_by_messages',
+        'CylcModel.C43.clean_stop_waits',
+        'CylcModel.C43.clean_stop_when_idle',
+        'CylcModel.C43.no_launch_while_stopping',
+        'CylcModel.C43.stop_now_immediate',
+        'CylcModel.C43.stop_now_keeps_jobs',
+        'CylcModel.C43.restart_keeps_jobs',
+    ]
+    statement_note = (
+        'partial: proofs over the Sched2 model (scheduler core + holds, stop modes / stop point / stop task, pause, clean '
+        'restart) for all instance graphs and all op lists. (1) stop_point_submit: the full statement "no job beyond the '
+        'stop point is launched" is FALSE for the code and the model (two proved counterexamples = findings '
+        'queued-before-stop-point and retry-beyond-stop-point); proved: the inductive stop-point invariant SPInv (runahead '
+        'limit <= stop point; no proxy beyond the stop point is queued or can become ready) and "no launch beyond the stop '
+        'point" for every op list in which each `cylc stop <point>` finds every pooled proxy beyond the new point unqueued '
+        'and not yet released (okStopPoint) and each restart finds no finished-job proxy beyond the restored stop point '
+        '(okRestart); unconditionally for op lists without stop-point/restart ops. No manual trigger exists in Sched2, so '
+        'the "unless manually triggered" exemption is not modelled. (2) stop_point_shutdown: from the state in which the main '
+        'loop decides (after its runahead release): nothing at or before the stop point remains + everything beyond is '
+        'waiting and runahead-limited + not stalled/paused => AUTOMATIC shutdown and DB stopcp cleared; conversely an '
+        'AUTOMATIC shutdown not caused by the stop task implies no preparing/submitted/running proxy and every waiting proxy '
+        'runahead-limited (that such a proxy lies beyond the stop point is not proved: it needs the runahead-base caches). '
+        '(3) forgotten/persisted: DB stopcp = current stop point whenever recorded (all runs); it changes only by `cylc stop '
+        '<point>` or by the automatic shutdown; restart restores DB stopcp, else flow.cylc, else the final point (graph '
+        'hypothesis WF: initial stop point = configured-or-final, checked by the driver on every graph). (4) stop task: the '
+        'main loop after the finished-flag is raised stops; the flag is raised only by remove_if_complete, for the stop task '
+        'in a FINAL status - the full statement "after that task succeeds" is false (proved counterexample = finding '
+        'stop-task-not-succeeded); that the flag is raised only during message processing is proved at step level, not that '
+        'the proxy is still final at the end of the step. (5) clean stop stops only without submitted/running proxies and '
+        'does once idle; nothing is launched while stopping or paused. (6) stop --now/--now --now stops at the next main loop '
+        'and leaves every instance with its status and submit number; a restart finds every non-preparing instance again '
+        'under the same status and submit number. Not in the model: kill mode, stop at a wall-clock time, stop of a flow, '
+        'event timers / process-pool draining at shutdown, reload')
+    technique = ('inductive invariants over guarded op lists of a Lean scheduler model (one lemma per primitive, control-frame '
+                 'lemmas) + proved counterexamples + trace correspondence with the real Scheduler under stop commands and restarts')
+    trusted = ['SQLite (the workflow_params rows stopcp / stop_task are read back after each shutdown, before the restart)']
+    rule = ('generated integer-cycling workflows (2-6 tasks, 1-3 recurrences, AND/OR triggers, inter-cycle offsets, retries, '
+            'optional/custom outputs, runahead P0-P3, configured stop points in ~30%) driven through the real Scheduler by a '
+            'seeded adaptive schedule of main loops, submit results and job messages, with a stop-heavy command mix (p=0.15 per '
+            'step: stop <point> x3, stop <task> x2, stop clean / --now / --now --now, pause, resume, hold, release, hold point) '
+            'and 1-3 stop+restart cycles; kind cmd = jobs complete their required outputs, kind cmdany = failures, submit '
+            'failures, missing outputs, duplicate/stale/out-of-order messages as well; every observation of the real scheduler '
+            'is judged by the S1-S6 monitor of Drv/C43.lean; non-trivial = distinct (kind, ending, launch-count class, stop '
+            'commands used, restarts) class per distinct case')
+    kinds = ('cmd', 'cmdany')
     n_quick = 48
-    n_thorough = 600
+    n_thorough = 640
     # stop-heavy command mix (additive generator options 'cmds' / 'p_cmd' / 'restarts')
     gen_opts = {
         'cmds': ['stop_point', 'stop_point', 'stop_point', 'stop_task', 'stop_task', 'stop_clean', 'stop_now',
@@ -23,6 +84,63 @@ class C43(SchedProp):
         'restarts': [1, 2, 3],
         'p_stop': 0.3,
     }
+    unmodelled = SchedProp.unmodelled[:2] + [
+        'datetime cycling, xtriggers, clock-expiry, queue limits, several flows, manual triggers, reload, kill mode, '
+        'wall-clock stop, stop of a flow, event timers and process-pool draining at shutdown',
+    ]
+
+    # The in-process restart occasionally fails on a loaded machine with threading.BrokenBarrierError (the server
+    # thread of the new Scheduler does not reach its start barrier in time).  That is an infrastructure failure of the
+    # harness set-up, not a behaviour of the scheduler: such cases are re-run, and dropped if it happens again.
+    FLAKE = 'BrokenBarrierError'
+
+    def impl_batch(self, inputs):
+        res = super().impl_batch(inputs)
+        for _attempt in range(2):
+            again = [k for k, r in enumerate(res) if self.FLAKE in str(r.get('error', ''))]
+            if not again:
+                break
+            redo = super().impl_batch([inputs[k] for k in again])
+            for k, r in zip(again, redo):
+                res[k] = r
+        return res
+
+    def skip_case(self, inp, raw):
+        if self.FLAKE in str(raw.get('error', '')):
+            self.flaky = getattr(self, 'flaky', 0) + 1
+            return True
+        return super().skip_case(inp, raw)
+
+    def classify(self, inp, obs):
+        base = super().classify(inp, obs)
+        if base == 'crash' or not isinstance(obs, list):
+            return base
+        tags = [base]
+        stops = {o['stop'] for o in obs if o.get('stop')}
+        for key, tag in (('AUTOMATIC', 'auto'), ('REQUEST(CLEAN)', 'clean'), ('REQUEST(NOW)', 'now'),
+                         ('REQUEST(NOW-NOW)', 'nownow')):
+            if key in stops:
+                tags.append(tag)
+        sps = {o.get('stop_point') for o in obs}
+        if len(sps) > 1:
+            tags.append('sp*%d' % min(len(sps), 3))
+        if any(o.get('stop_task') for o in obs):
+            tags.append('task')
+        n = sum(1 for o in obs if o.get('db_shutdown') is not None)
+        if n:
+            tags.append('restart%d' % min(n, 3))
+        return '/'.join(tags)
+
+    def neighbours(self, inp, rng):
+        # same workflow, other schedules / command histories
+        out = []
+        for k in range(6):
+            d = dict(inp)
+            d['ops'] = None
+            d['seed'] = rng.randrange(1 << 30)
+            d['id'] = f"{inp.get('id', 'n')}n{k}"
+            out.append(d)
+        return out
 
 
 PROP = C43()
